@@ -400,15 +400,27 @@ def _send(sock, raw):
     return True
 
 
+def _connect(port):
+    "-> connected socket, or None if the listener does not accept any more"
+    try:
+        sock = socket.create_connection(('127.0.0.1', port),
+                                        timeout=io_timeout())
+    except (socket.timeout, ConnectionRefusedError, ConnectionResetError):
+        _WAITED['io'] += 1
+        return None
+    sock.setsockopt(socket.IPPROTO_TCP, socket.TCP_NODELAY, 1)
+    return sock
+
+
 def exchange(port, raw):
     """
     One connection: send raw, half-close, read to the end.
     Returns (bytes, (how the stream ended, client port)).
     """
-    sock = socket.create_connection(('127.0.0.1', port),
-                                    timeout=io_timeout())
+    sock = _connect(port)
+    if sock is None:
+        return b'', ('not-connected', 0)
     try:
-        sock.setsockopt(socket.IPPROTO_TCP, socket.TCP_NODELAY, 1)
         lport = sock.getsockname()[1]
         _send(sock, raw)
         try:
@@ -1210,6 +1222,11 @@ def check_exchange(ctx, fx, raw, info, data, end, classes, where=''):
     expect = info['expect']
     end, lport = end
     where = ''
+    if end == 'not-connected':
+        ctx.fail('no-response:connection-not-accepted',
+                 'connect() to the listener port failed or timed out')
+        classes.append('outcome:not-connected')
+        return None
     if end == 'timeout':
         ctx.fail('no-response:read-timeout-after-half-close',
                  'nothing more within %s s; got %r' % (IO_TIMEOUT, data[:200]))
@@ -1525,13 +1542,18 @@ class Sequences:
             marker = next_marker()
             raw, info = build_request(step[1], marker)
             cut = len(raw) * step[2] // 1000
-            sock = socket.create_connection(('127.0.0.1', self.fx.port),
-                                            timeout=io_timeout())
-            sock.setsockopt(socket.IPPROTO_TCP, socket.TCP_NODELAY, 1)
-            _send(sock, raw[:cut])
+            sock = _connect(self.fx.port)
+            if sock is None:
+                self.ctx.fail('no-response:connection-not-accepted',
+                              'connect() failed or timed out')
+                sock = socket.socket()      # placeholder, never connected
+                lport = 0
+            else:
+                lport = sock.getsockname()[1]
+                _send(sock, raw[:cut])
             self.stalled.append(dict(sock=sock, rest=raw[cut:], raw=raw,
-                                     info=info, marker=marker, fx=self.fx,
-                                     lport=sock.getsockname()[1]))
+                                     info=info, marker=marker, lport=lport,
+                                     fx=self.fx if lport else None))
             if info['defects']:
                 self.n_defect += 1
         elif kind == 'resume':
